@@ -174,7 +174,10 @@ class TemplateLoader:
 class MemoryLoader:
     def build(self, source: str, filename: str) -> dict[str, Any]:
         code = compile(source, filename, 'exec')
-        env: dict[str, Any] = {}
+        # The module goes by the name that a module loaded from a cache
+        # directory has, so what the template code creates (classes,
+        # functions) belongs to the same module either way.
+        env: dict[str, Any] = {'__name__': os.path.splitext(filename)[0]}
         exec(code, env)
         return env
 
